@@ -71,6 +71,8 @@ pub struct Vvm {
     pub consensus_fault: RefCell<Option<fvm_shared::consensus::ConsensusFault>>,
     /// maximum call depth (FVM: 1024); exceeding it returns SYS_ASSERTION_FAILED-like limit error
     pub max_depth: RefCell<u32>,
+    /// (from, to, method, exit code, message) of every failed invocation since the last `take_errors`
+    pub error_log: RefCell<Vec<(u64, Address, MethodNum, u32, String)>>,
 }
 
 /// Which nested sends are forced to abort. A send matches when every `Some` field matches.
@@ -115,6 +117,7 @@ impl Vvm {
             send_ordinal: RefCell::new(0),
             consensus_fault: RefCell::new(None),
             max_depth: RefCell::new(1024),
+            error_log: RefCell::new(vec![]),
         }
     }
 
@@ -309,6 +312,10 @@ impl Vvm {
         self.deleted.borrow_mut().push(*addr);
         self.actors_dirty.replace(true);
         self.checkpoint();
+    }
+
+    pub fn take_errors(&self) -> Vec<(u64, Address, MethodNum, u32, String)> {
+        self.error_log.take()
     }
 
     fn actor_map(&self) -> Map2<&MemoryBlockstore, Address, ActorState> {
